@@ -64,7 +64,7 @@ type TLCStats struct {
 }
 
 // modules whose Init understands the NParts / Part constants
-var partAware = map[string]bool{"MC_E1": true, "MC_Dec": true, "MC_C15": true, "MC_Gap": true}
+var partAware = map[string]bool{"MC_E1": true, "MC_Dec": true, "MC_C15": true, "MC_Gap": true, "MC_JsonEnc": true}
 
 var reStats = regexp.MustCompile(`(\d+) states generated, (\d+) distinct states found`)
 var reDepth = regexp.MustCompile(`depth of the complete state graph search is (\d+)`)
